@@ -157,7 +157,22 @@ func NewGroupFieldDef(fieldType *FieldType, required bool, parts []MessagePart) 
 		}
 
 		if comp, ok := part.(Component); ok {
-			field.Fields = append(field.Fields, comp.Fields()...)
+			// A member that comes from a component is required for a group entry only if it is
+			// in the recursive required set of a required component.
+			requiredInContext := make(TagSet)
+			if comp.required {
+				for _, f := range comp.requiredFields {
+					requiredInContext.Add(f.Tag())
+				}
+			}
+			for _, f := range comp.Fields() {
+				if _, required := requiredInContext[f.Tag()]; f.required && !required {
+					optional := *f
+					optional.required = false
+					f = &optional
+				}
+				field.Fields = append(field.Fields, f)
+			}
 
 			if comp.required {
 				field.requiredFields = append(field.requiredFields, comp.requiredFields...)
